@@ -358,6 +358,7 @@ class World(object):
         self.dd_calls = 0
         self.dd_rev = 0
         self.lazy_runs = {}
+        self.reuse_obj = None
         self.nested_depth = 0
 
     def v(self, cat, msg):
@@ -763,6 +764,16 @@ class World(object):
             rec.obj = HCtxResumeRaises(rec)
         elif kind == "Xq":
             rec.obj = HCtxPauseAlwaysRaises(rec)
+        elif kind == "R0":
+            # ONE override context object, reused by every R0 block of this execution (after it completed a block)
+            # (one object per task: a context object must not be entered by two tasks at the same time)
+            if self.reuse_obj is None:
+                self.reuse_obj = {}
+            obj = self.reuse_obj.get(tc.tid)
+            if obj is None:
+                obj = self.reuse_obj[tc.tid] = SpySVOverride(self.sv[0], ("ovR",))
+            obj.rec = rec
+            rec.obj = obj
         elif kind in ("S0", "S1"):
             rec.obj = SpySVOverride(self.sv[int(kind[1])], ("ov", st[1]))
             rec.obj.rec = rec
